@@ -386,6 +386,29 @@ PROPS["C19"] = dict(
     thorough=[c19(0, 4, 0, 3000), c19(1, 4, 0, 3000), c19(0, 3, 1, 3000)],
 )
 
+C10H = ["gqlds/c01_exec.go", "gqlds/c01_fed.go", "gqlds/c10_defer.go", "common/zz_json.go", "common/zz_exec.go"]
+
+def c10(depth, budget, sched, timeout=1800):
+    return spec("H-C10a[%d,%d,%d]" % (depth, budget, sched), "./pkg/engine/datasource/graphql_datasource", C10H, "VerifC10Defer", [depth, budget, sched],
+                "federation F1; generated operations with @defer on inline fragments with and without type condition (siblings, nested, inside lists, across entity jumps), nesting <=%d, <=%d optional parts; real normalization with defer expansion, validation, planner with defer info, post-processing (defer extraction, defer tree), ResolveGraphQLDeferResponse with per-group loaders%s" % (depth, budget, "; completion orders of the deferred groups explored with <=1 preemption" if sched else ""),
+                ["reconstructed 0"], timeout=timeout, preempt=1)
+
+def c10ops(sched, timeout=1800):
+    return spec("H-C10b[%d]" % sched, "./pkg/engine/datasource/graphql_datasource", C10H, "VerifC10DeferOps", [sched],
+                "federation F1; 7 fixed operations (same object field under two defers with a nested defer; aliases above a defer below lists; nested defer beside an earlier sibling defer; labels; duplicate fields across defers; two aliased root fields)%s" % ("; completion orders of the deferred groups explored with <=1 preemption" if sched else ""),
+                ["reconstructed 0"], timeout=timeout, preempt=1)
+
+PROPS["C10"] = dict(
+    title="@defer delivers the same data incrementally with a well-formed stream",
+    level_text="bounded symbolic execution of the real defer pipeline end to end with the deferred groups' goroutines under the engine scheduler: frames (what is written between two flushes) are parsed and checked against the pending/incremental/completed grammar (initial frame first, ids announced once and before use, nothing for unannounced or completed ids, every announced id completed exactly once, hasNext false exactly on the last frame, writer completed once, no interleaved writes, termination), and the initial data with every incremental payload merged at pending path + subPath must equal the reference executor's data for the same operation without @defer",
+    level_note="bounds: federation F1 without abstract types, generated family and 7 fixed operations, preemption bound 1, fault-free subgraphs; @defer(if: $var), @defer under abstract types, errors inside deferred payloads and @stream are not exercised; trusted base: gosym scheduler, reference executor, the frame parser (engine json model)",
+    design_ref="DESIGN.md §4 C10",
+    assumptions=["A-DRF", "timers never fire"],
+    stubs=["as C01; DeferResponseWriter: recording stub"],
+    quick=[c10ops(0), c10(1, 2, 0), c10ops(1)],
+    thorough=[c10(2, 3, 0, 3000), c10(1, 2, 1, 3000), c10(2, 4, 0, 3000)],
+)
+
 NOT_APPLICABLE = {
     "C20": "The gRPC datasource's data path runs on protoreflect/dynamicpb/protocompile (reflection, unsafe, generated descriptors); no SSA->SMT encoding of it is within reach of the engine built here, and the property is about exactly that path (DESIGN.md §5).",
 }
